@@ -75,6 +75,8 @@ func init() {
 			{Name: "sp-header-and-framing-all-protocols", Mode: "enum", Reset: kit.ResetGlobals, Body: wireAllProtocols, NeedCounters: []string{"header-exact", "frame-exact"}},
 			{Name: "every-length-framing", Mode: "enum", Reset: kit.ResetGlobals, Body: func() { EveryLength(map[bool]int{false: 2200, true: 9000}[tier == "thorough"]) }, NeedCounters: []string{"every-length-written-exact", "every-length-received-exact"}},
 			{Name: "long-protocol-headers-framing", Mode: "enum", Reset: kit.ResetGlobals, Body: LongHeaders, NeedCounters: []string{"header-over-32-bytes-written-exact"}},
+			{Name: "stream-ends-inside-a-frame", Mode: "enum", Reset: kit.ResetGlobals, Body: truncatedAfterComplete, NeedCounters: []string{"ended-right-after-length-prefix", "ended-inside-payload"}},
+			{Name: "frame-truncated-everywhere", Mode: "enum", Reset: kit.ResetGlobals, Body: frameTruncated, NeedCounters: []string{"truncated-nothing-delivered"}},
 			{Name: "full-duplex-framing", Mode: "sched", Bound: map[string]int{"quick": 2, "thorough": 3}[tier], Reset: kit.ResetGlobals, Body: fullDuplex},
 			{Name: "frames-arrive-while-a-write-is-stalled", Mode: "enum", Reset: kit.ResetGlobals, Body: duplexStalled, NeedCounters: []string{"stalled-write-exact"}},
 			{Name: "conformant-peer-beside-truncated-or-stalled-handshakes", Mode: "enum", Reset: kit.ResetGlobals, Body: hsTruncated, NeedCounters: []string{"stalled-does-not-delay-others"}},
